@@ -361,3 +361,23 @@ def write_tree(env, cname, obj, tree, only_nonrand=False):
     must agree)"""
     for p in refsem.all_scalar_paths(env.prog, cname, tree):
         assign_path(env, cname, obj, p, refsem._walk(tree, p))
+
+
+def sync_tree(env, cname, obj, tree):
+    """bring an object to the state described by a value tree, including the
+    lengths of its scalar lists (list assignment through the public API)"""
+    for f in env.prog.fields(cname):
+        n, k = f["n"], f["k"]
+        if k == "s":
+            setattr(obj, n, tree[n])
+        elif k == "e":
+            setattr(obj, n, env.enums[f["en"]](tree[n]))
+        elif k == "l":
+            setattr(obj, n, list(tree[n]))
+        elif k == "le":
+            setattr(obj, n, [env.enums[f["en"]](v) for v in tree[n]])
+        elif k == "o":
+            sync_tree(env, f["c"], getattr(obj, n), tree[n])
+        elif k == "lo":
+            for e, t in zip(getattr(obj, n), tree[n]):
+                sync_tree(env, f["c"], e, t)
